@@ -250,10 +250,17 @@ func (s *mgrSys) Enabled() []string {
 	return ev
 }
 
-func (s *mgrSys) Apply(ev string) error {
+func (s *mgrSys) Apply(ev string) (err error) {
 	if s.err != nil {
 		return s.err
 	}
+	// a panic of the manager on the caller's goroutine (Validate, UpdateNodePool, a request's done
+	// function) is a verdict: the request that reports its result crashes instead of returning
+	defer func() {
+		if x := recover(); x != nil {
+			err = s.fail("C17/manager/panic: event %s made the manager panic: %v", ev, x)
+		}
+	}()
 	parts := strings.Split(ev, ":")
 	switch parts[0] {
 	case "sub":
@@ -615,6 +622,7 @@ func managerEV(t *testing.T, rep *vx.Report, deadline time.Time) bool {
 		{mgrCfg{Peers: []string{"p1", "p2"}, Hashes: 1, Blacklist: true, MaxTicks: 2, Prefer: 1}, 5},
 		{mgrCfg{Peers: []string{"p1"}, Hashes: 2, Blacklist: false, MaxTicks: 2, Prefer: 2}, 5},
 		{mgrCfg{Peers: []string{"p1"}, Hashes: 2, Blacklist: true, MaxTicks: 1, Prefer: 1, Gap: storedPoolsAmount}, 5},
+		{mgrCfg{Peers: []string{"p1"}, Hashes: 2, Blacklist: false, MaxTicks: 1, Prefer: 1, Gap: storedPoolsAmount + 1}, 5},
 	}
 	if rep.Tier == "thorough" {
 		runs = []run{
@@ -624,6 +632,7 @@ func managerEV(t *testing.T, rep *vx.Report, deadline time.Time) bool {
 			{mgrCfg{Peers: []string{"p1", "p2"}, Hashes: 1, Blacklist: true, MaxTicks: 3, Prefer: 2}, 7},
 			{mgrCfg{Peers: []string{"p1", "p2"}, Hashes: 2, Blacklist: true, MaxTicks: 2, Prefer: 1, Gap: storedPoolsAmount}, 6},
 			{mgrCfg{Peers: []string{"p1"}, Hashes: 3, Blacklist: false, MaxTicks: 2, Prefer: 2, Gap: storedPoolsAmount / 2}, 6},
+			{mgrCfg{Peers: []string{"p1", "p2"}, Hashes: 2, Blacklist: true, MaxTicks: 2, Prefer: 2, Gap: storedPoolsAmount + 1}, 6},
 		}
 	}
 	exhaustive := true
